@@ -252,6 +252,45 @@ def main():
                                 r = "exc:" + type(e).__name__
                             metas.append(("bwrite", {"w": w, "s": s, "cur": cur, "k": k, "val": val}, r))
                             reqs.append({"op": "v.bitWriteField", "w": w, "s": s, "cur": cur, "k": k, "val": val})
+        # the same reads on the values the other access paths hand out: attribute of an object, get_val() of the field,
+        # element of a list (these go through the value classes, not through type_base.__getitem__)
+        for w in pw:
+            for s in (False, True):
+                T = vsc.int_t if s else vsc.bit_t
+
+                def _init(self, _T=T, _w=w):
+                    self.f = _T(_w)
+                    self.l = vsc.list_t(_T(_w), 2)
+                H = vsc.randobj(type("PartSelHolder_%d_%s" % (w, "s" if s else "u"), (object,), {"__init__": _init}))
+                with common.quiet():
+                    o = H()
+                lo_v = -(1 << (w - 1)) if s else 0
+                hi_v = (1 << (w - 1)) - 1 if s else (1 << w) - 1
+                curs = range(lo_v, hi_v + 1)
+                if tier != "thorough" and w == 8:
+                    curs = sorted(set(rng.randint(lo_v, hi_v) for _ in range(24)) | {lo_v, hi_v, 0, -1 if s else 1})
+                for cur in curs:
+                    o.f = cur
+                    o.l[1] = cur
+                    with vsc.raw_mode():
+                        fobj = o.f
+                    paths = {"attr": lambda: o.f, "get_val": lambda: fobj.get_val(), "list": lambda: o.l[1]}
+                    for pname, rd in paths.items():
+                        for hi in range(w):
+                            for lo in range(hi + 1):
+                                try:
+                                    r = int(rd()[hi:lo])
+                                except Exception as e:
+                                    r = "exc:" + type(e).__name__
+                                metas.append(("pread", {"w": w, "s": s, "cur": cur, "hi": hi, "lo": lo, "path": pname}, r))
+                                reqs.append({"op": "v.partRead", "cur": cur, "hi": hi, "lo": lo})
+                        for k in range(w):
+                            try:
+                                r = int(rd()[k])
+                            except Exception as e:
+                                r = "exc:" + type(e).__name__
+                            metas.append(("bread", {"w": w, "s": s, "cur": cur, "k": k, "path": pname}, r))
+                            reqs.append({"op": "v.bitRead", "cur": cur, "k": k})
         res = drv.batch(reqs)
         for (kind, case, impl), model in zip(metas, res):
             ck.count("eval_partsel")
